@@ -75,3 +75,10 @@ package fhir
 //@   ensures value != nil && err == nil ==> res != nil && int(res.Value) == int(value.Value)
 //@   ensures err != nil ==> res == nil && is(err, ErrIntegerDataLoss)
 //@   assigns nothing
+
+// C20: the extensions of an element or resource, as the generated getter returns them
+// (named: a pure read)
+//@ iface Extendable.GetExtension(e) (r)
+//@   defines r == extsOf(e)
+//@   ensures forall k int :: 0 <= k && k < len(r) ==> !fresh(r[k])
+//@   assigns nothing
